@@ -269,6 +269,8 @@ func (ex *Exec) applyTypeInvariantsAtEntry(fr *Frame) {}
 func (ex *Exec) chanSend(fr *Frame, x *ssa.Send) {
 	ex.note("channel send: no effect modelled (partial correctness)")
 	ex.cancellableWait(fr, x, "send", nil)
+	// `callsite send requires e`: obligations on every channel send of the function ($0 the channel, $1 the value sent)
+	ex.callSiteObligations(fr, x, "send", []Val{ex.reg(fr, x.Chan), ex.reg(fr, x.X)})
 }
 
 // chanField: the struct field a channel value was loaded from (T, f), when syntactically evident.
@@ -376,6 +378,11 @@ func (ex *Exec) selectStmt(fr *Frame, x *ssa.Select) Val {
 			}
 		}
 		ex.cancellableWait(fr, x, "select", chans)
+	}
+	for _, s := range x.States {
+		if s.Dir == types.SendOnly {
+			ex.callSiteObligations(fr, x, "send", []Val{ex.reg(fr, s.Chan), ex.reg(fr, s.Send)})
+		}
 	}
 	n := len(x.States)
 	idx := ts.Fresh("select", ex.intSort(types.Typ[types.Int]))
